@@ -115,6 +115,64 @@
     #[kani::stub(crate::error_eof, crate::vk::err_eof)]
     fn c02_xz_index_parse_n2_2_3() { xz_index_parse(2, 2, 3); }
 
+    /// C04.xz.index.count: contract of `XZReader::parse_index_and_footer` - it returns Ok only if the index lists exactly
+    /// as many records as blocks were decoded (an inserted, duplicated or dropped self-consistent block is detected only
+    /// here) and the footer repeats the header's stream flags behind the magic "YZ". Input: the spec index with n records
+    /// followed by 12 arbitrary footer bytes; the block counter and the header's check type are arbitrary.
+    fn xz_index_footer_count(n: usize) {
+        let mut recs: [(u64, u64); 2] = [(0, 0); 2];
+        let mut i = 0;
+        while i < n {
+            let u: u8 = vk::any();
+            let v: u8 = vk::any();
+            vk::assume(u >= 1 && u < 0x80 && v < 0x80);
+            recs[i] = (u as u64, v as u64);
+            i += 1;
+        }
+        let mut ibuf = [0u8; 64];
+        let ilen = spec_index(&mut ibuf, n, &recs, 1, 1);
+        let footer: [u8; 12] = vk::any();
+        let mut buf = [0u8; 28];
+        let mut i = 1;
+        while i < ilen { buf[i - 1] = ibuf[i]; i += 1; }
+        let mut j = 0;
+        while j < 12 { buf[ilen - 1 + j] = footer[j]; j += 1; }
+        let c: u8 = vk::any();
+        vk::assume(c == 0 || c == 1 || c == 4 || c == 10);
+        let ct = match c { 0 => CheckType::None, 1 => CheckType::Crc32, 4 => CheckType::Crc64, _ => CheckType::Sha256 };
+        let b: u64 = vk::any();
+        let mut r = XZReader::new(vk::Src::<28>::new(buf, ilen - 1 + 12), false);
+        r.stream_header = Some(StreamHeader { check_type: ct });
+        r.blocks_processed = b;
+        let res = r.parse_index_and_footer();
+        let footer_ok = u32::from_le_bytes([footer[0], footer[1], footer[2], footer[3]]) == CRC32.checksum(&footer[4..10])
+            && footer[8] == 0 && footer[9] == c && footer[10] == b'Y' && footer[11] == b'Z';
+        match res {
+            Ok(()) => {
+                assert!(b == n as u64);
+                assert!(footer_ok);
+            }
+            Err(e) => {
+                assert!(!(b == n as u64 && footer_ok));
+                assert!(vk::kind_of(&e) == vk::Kind::InvalidData);
+            }
+        }
+        crate::vcover!(b == n as u64 && footer_ok);
+        core::mem::forget(r);
+    }
+    #[kani::proof]
+    #[kani::unwind(30)]
+    //@ERR
+    fn c04_xz_index_footer_count_n0() { xz_index_footer_count(0); }
+    #[kani::proof]
+    #[kani::unwind(30)]
+    //@ERR
+    fn c04_xz_index_footer_count_n1() { xz_index_footer_count(1); }
+    #[kani::proof]
+    #[kani::unwind(30)]
+    //@ERR
+    fn c04_xz_index_footer_count_n2() { xz_index_footer_count(2); }
+
     /// C02.xz.sftr / C04.xz.hdrs: StreamFooter::parse on arbitrary 12 bytes: Ok ⇔ crc field = crc32(bytes 4..10) ∧ magic "YZ";
     /// returns exactly the stored backward size and flags.
     #[kani::proof]
